@@ -123,7 +123,20 @@ def dtypes():
     return _DTYPES
 
 
-def make_tensor(code: int, shape: tuple[int, ...]):
+_DT_BY_NAME: dict = {}
+
+
+def dt_code(name: str) -> int:
+    """`lib:name` -> index in the dtype enumeration"""
+    if not _DT_BY_NAME:
+        for i, (lib, nm, _a, _c) in enumerate(dtypes()):
+            _DT_BY_NAME[f"{lib}:{nm}"] = i
+    return _DT_BY_NAME[name]
+
+
+def make_tensor(code, shape: tuple[int, ...]):
+    if isinstance(code, str):
+        code = dt_code(code)
     key = (code, shape)
     t = _ARR_CACHE.get(key)
     if t is not None:
@@ -138,10 +151,10 @@ def make_tensor(code: int, shape: tuple[int, ...]):
 
         t = torch.empty(shape, dtype=proto.dtype)
     else:
-        import jax.numpy as jnp
+        import jax
         import numpy as np
 
-        t = jnp.asarray(np.zeros(shape, dtype=proto.dtype))
+        t = jax.device_put(np.zeros(shape, dtype=proto.dtype))  # no XLA compilation per shape
     if len(_ARR_CACHE) < 200000:
         _ARR_CACHE[key] = t
     return t
@@ -163,20 +176,15 @@ def parse_value(s: str):
         return None
     f = s.split(",")
     if f[0] == "T":
-        return make_tensor(int(f[1]), parse_dims(f[2]))
+        return make_tensor(f[1], parse_dims(f[2]))
     return 5
 
 
 _CLASSES = None
 
 
-def class_by_index(i: int):
-    global _CLASSES
-    if _CLASSES is None:
-        import translate
-
-        _CLASSES = [getattr(dltype, c) for c in translate.CLASSES]
-    return _CLASSES[i]
+def class_by_name(n: str):
+    return getattr(dltype, n)
 
 
 def parse_ann_spec(s: str):
@@ -184,7 +192,7 @@ def parse_ann_spec(s: str):
     if s == "-":
         return None
     cls, opt, shape = s.split(",", 2)
-    return class_by_index(int(cls))(opt_shape(shape), optional=(opt == "1"))
+    return class_by_name(cls)(opt_shape(shape), optional=(opt == "1"))
 
 
 def show_report(e) -> str:
@@ -219,7 +227,7 @@ def op_check(spec: str, dt: str, dims: str) -> str:
         ann = parse_ann_spec(spec)
     except Exception as e:  # noqa: BLE001
         return exc_line(e)
-    t = make_tensor(int(dt), parse_dims(dims))
+    t = make_tensor(dt, parse_dims(dims))
     try:
         ann.check(t)
     except Exception as e:  # noqa: BLE001
